@@ -674,6 +674,24 @@ def gen_template(rng, index=0, width=None, object_action=False, ops=None, types=
         t["Description"] = "generated"
     if r.random() < 0.2:
         t["Outputs"] = {"O1": {"Value": "x", "Description": "d"}}
+    elif r.random() < 0.5:
+        # Outputs whose members are expressions, some of which do not denote text (a mapping leaf written as a number or a JSON
+        # boolean -- valid CloudFormation -- or an Fn::Select past the end): whatever resolve() does with the section, it does not
+        # raise (seeded change C05-r5m2 resolved the section into a field typed Dict[str, Dict[str, Union[str, Dict]]])
+        t.setdefault("Mappings", {})["Limits"] = {"prod": {"days": 365, "flag": True, "ratio": 1.5, "names": ["a", "b"]}, "k1": {"days": 7}}
+        outs = {}
+        for i in range(r.randint(1, 4)):
+            v = r.choice([g.s(1), g.s(2), {"Fn::FindInMap": ["Limits", "prod", r.choice(["days", "flag", "ratio", "names"])]},
+                          {"Fn::Select": [r.choice([0, 5, "7"]), g.l(1)]}, {"Fn::GetAtt": ["M1", "Arn"]}])
+            o = {"Value": v}
+            if r.random() < 0.4:
+                o["Description"] = "d"
+            if r.random() < 0.3:
+                o["Export"] = {"Name": r.choice([g.s(1), {"Fn::Sub": "${AWS::StackName}-" + str(i)}, {"Fn::FindInMap": ["Limits", "k1", "days"]}])}
+            if cnames and r.random() < 0.3:
+                o["Condition"] = r.choice(cnames)
+            outs[f"O{i}"] = o
+        t["Outputs"] = outs
     if r.random() < 0.15:
         t["Metadata"] = {"AWS::CloudFormation::Interface": {"ParameterGroups": []}}
     return {"template": t, "extra": params.extra, "ops": sorted(set(pg.used_ops)), "types": sorted({x.get("Type") for x in resources.values()})}
